@@ -291,13 +291,19 @@ impl DataModel {
 
     pub fn update_system(&mut self, model: &str) -> Result<(), Error> {
         let new_data_model = Self::parse_internal(model, 0)?;
-        self.update_with(new_data_model, true)?;
+        // work on a copy: a refused version must leave the current model untouched
+        let mut updated = self.clone();
+        updated.update_with(new_data_model, true)?;
+        *self = updated;
         Ok(())
     }
 
     pub fn update(&mut self, model: &str) -> Result<(), Error> {
         let new_data_model = Self::parse_internal(model, 1)?; //decal namespace id by one to reserce the first id to the sys namespace
-        self.update_with(new_data_model, false)?;
+        // work on a copy: a refused version must leave the current model untouched
+        let mut updated = self.clone();
+        updated.update_with(new_data_model, false)?;
+        *self = updated;
         Ok(())
     }
 
